@@ -607,6 +607,26 @@ API_PRELUDE = """
         #[bits(4..=7, rw)]
         b: u4,
     }
+    /// incomplete, and Default is only derived (not a declared default): no builder
+    #[bitfield(u8)]
+    #[derive(Default, PartialEq, Eq, Debug)]
+    pub struct NoB5 {
+        /// a
+        #[bits(0..=4, rw)]
+        a: u5,
+    }
+    /// incomplete, derive written before the bitfield attribute's sibling attributes: no builder
+    #[bitfield(u16)]
+    #[allow(dead_code)]
+    #[derive(Default)]
+    pub struct NoB6 {
+        /// a
+        #[bits(0..=7, rw)]
+        a: u8,
+        /// ro
+        #[bits(8..=15, r)]
+        ro: u8,
+    }
     /// self-overlapping range list: no builder
     #[bitfield(u8, default = 0)]
     pub struct NoB4 {
@@ -666,6 +686,8 @@ def api_cases():
     c.append(("C14", "arbitrary base: missing high field", "let _ = B12::builder().with_lo(arbitrary_int::u6::new(1)).build();", "let _ = %s;" % full12))
     c.append(("C14", "no builder for overlapping fields", "let _ = NoB1::builder();", "let _ = NoB1::DEFAULT;"))
     c.append(("C14", "no builder for incomplete cover without default", "let _ = NoB2::builder();", "let _ = NoB2::ZERO;"))
+    c.append(("C14", "no builder for incomplete cover whose Default is only derived", "let _ = NoB5::builder();", "let _ = NoB5::default();"))
+    c.append(("C14", "no builder for a read-only remainder whose Default is only derived", "let _ = NoB6::builder();", "let _ = NoB6::default();"))
     c.append(("C14", "no builder for overlapping array elements", "let _ = NoB3::builder();", "let _ = NoB3::DEFAULT;"))
     c.append(("C14", "no builder for a self-overlapping range list", "let _ = NoB4::builder();", "let _ = NoB4::DEFAULT;"))
     c.append(("C14", "a later step is not available before an earlier one, not even through the bitfield's own with_", "let _ = BD::builder().with_b(arbitrary_int::u4::new(2));", "let _ = BD::builder().with_a(arbitrary_int::u4::new(2));"))
